@@ -39,7 +39,7 @@ SPEC = dict(
         dict(family="faults", n=(40, 400), paths=(3, 5), calls=45, mode="snap",
              label="YarnTrace: faulty programs with Snapshot / RestoreAt interleaved (three runners, hand-written snapshots)")],
     nontrivial=lambda c: True,
-    scripts=dict(paths=(5, 25), calls=80, hostsets=True),
+    scripts=dict(paths=(5, 25), calls=80, hostsets=True, mc=dict(invariants=INV, max_calls=9, max_polls=1, after_end=1)),
     rule="valid scripts with faults sprinkled over every statement kind and nesting position: ill-typed operations, unknown variables / nodes / "
          "functions / commands, wrong argument counts and types, failing host functions and commands, type changes, compound assignment to an "
          "unknown variable, the null literal, a function returning nothing used as a value; all choice paths enumerated by TLC and replayed, "
